@@ -92,11 +92,15 @@ def onlyAncestorDirsAdded (before after : Walk) (c : Path) : Bool :=
   after.all (fun e => decide (before.at e.1 = some e.2) ||
     (decide (before.at e.1 = none) && decide (e.2 = .dir) && (properPrefixes c).contains e.1))
 
+def notFile : Option Kind → Bool
+  | some (.file _) => false
+  | _ => true
+
 /-- A write can be carried out in the top layer: the path names a file position whose ancestors
 are not regular files and which is not itself a directory. -/
 def writable (top : Walk) (q : Loc) : Bool :=
   !q.dirOnly && !q.comps.isEmpty &&
-  (properPrefixes q.comps).all (fun a => match top.at a with | some (.file _) => false | _ => true) &&
+  (properPrefixes q.comps).all (fun a => notFile (top.at a)) &&
   decide (top.at q.comps ≠ some .dir)
 
 /-- The top layer after a successful write of stored bytes `s` at `q`: the file is there, its
@@ -110,7 +114,7 @@ def writtenTop (before after : Walk) (q : Loc) (s : Bytes) : Bool :=
 
 /-- A directory can be created: no component on the way (the path itself included) is a regular file. -/
 def dirCreatable (top : Walk) (q : Loc) : Bool :=
-  ((properPrefixes q.comps) ++ [q.comps]).all (fun a => match top.at a with | some (.file _) => false | _ => true)
+  ((properPrefixes q.comps) ++ [q.comps]).all (fun a => notFile (top.at a))
 
 def createdTop (before after : Walk) (q : Loc) : Bool :=
   ((properPrefixes q.comps) ++ [q.comps]).all (fun a => decide (after.at a = some .dir)) &&
